@@ -6,7 +6,7 @@
    a heap model (Model/GraphHeap.v: successor sets are mutable cells, a DiGraph object maps
    nodes to cells, the constructor allocates fresh cells) and additionally monitored on the
    Python objects by the correspondence check. *)
-From PMC Require Import Spec.Lemmas Proofs.GraphP Model.GraphHeap Proofs.GraphHeapP.
+From PMC Require Import Spec.Lemmas Proofs.GraphP Model.GraphHeap Proofs.GraphHeapP Model.GraphOps Proofs.GraphOpsP.
 
 (* get_reachable_set_from(X) = X plus everything reachable from X; foreign start node -> RuntimeError *)
 Theorem C13_reach : forall g X, wf_graph g -> incl X (nodes g) ->
@@ -59,6 +59,43 @@ Example C13_example :
   reach_r g [1] = Ok [1; 2] /\ edges (reversed g) = [(0, 3); (1, 0); (1, 2); (2, 1)] /\
   subgraph g [0; 1; 3] = [(0, [1]); (1, []); (3, [0])].
 Proof. vm_compute. repeat split. Qed.
+
+(* ---------------------------------------------------------------------------------------- *)
+(* graphs edited after construction: add_node / add_edge                                      *)
+(* ---------------------------------------------------------------------------------------- *)
+(* one call raises RuntimeError exactly when the node / edge it names is already there, and
+   otherwise adds exactly what it names (an edge also its two ends) *)
+Theorem C13_mutator_call : forall g o, wf_graph g ->
+  (forall g', apply_gop g o = Ok g' ->
+     wf_graph g' /\
+     (forall x, In x (nodes g') <-> In x (nodes g) \/ names_node o x) /\
+     (forall x y, edge g' x y <-> edge g x y \/ names_edge o x y)) /\
+  (apply_gop g o = RuntimeErr \/ exists g', apply_gop g o = Ok g') /\
+  (apply_gop g o = RuntimeErr <->
+     match o with OpNode v => In v (nodes g) | OpEdge s d => edge g s d end).
+Proof. exact apply_gop_spec. Qed.
+Print Assumptions C13_mutator_call.
+
+(* any sequence of calls by a caller who catches the RuntimeErrors: at the end the graph has
+   exactly the old nodes and edges plus everything the calls named - in particular nothing is
+   ever lost (an add_edge that erased the successors of its target would violate this) *)
+Theorem C13_mutator_histories : forall ops g gf bs, wf_graph g -> run_gops g ops = (gf, bs) ->
+  wf_graph gf /\
+  (forall x, In x (nodes gf) <-> In x (nodes g) \/ exists o, In o ops /\ names_node o x) /\
+  (forall x y, edge gf x y <-> edge g x y \/ exists o, In o ops /\ names_edge o x y) /\
+  length bs = length ops.
+Proof. exact run_gops_spec. Qed.
+Print Assumptions C13_mutator_histories.
+
+(* building (V, E) through add_node / add_edge, nodes first or edges first, gives the graph the
+   constructor gives *)
+Theorem C13_incremental_construction : forall V E gi,
+  gi = build_nodes_first V E \/ gi = build_edges_first V E ->
+  wf_graph gi /\
+  (forall x, In x (nodes gi) <-> In x (nodes (mk_graph V E))) /\
+  (forall x y, edge gi x y <-> edge (mk_graph V E) x y).
+Proof. exact incremental_is_constructor. Qed.
+Print Assumptions C13_incremental_construction.
 
 (* ---------------------------------------------------------------------------------------- *)
 (* independence, on the heap model                                                            *)
